@@ -191,6 +191,15 @@ def canon(e, refs=True, _depth=0):
                 if lit is not None and lit.get("kind") in ("IntegerLiteral", "FloatingLiteral", "CXXBoolLiteralExpr"):
                     v = rec(lit)
                     return ("un", "-", v) if neg else v
+            if dk == "VarDecl" and (d.get("constexpr") or qt(d).rstrip().endswith("const") or (qt(d).startswith("const ") and "*" not in qt(d) and "&" not in qt(d))):
+                # a named string constant (`const char *const kExt = ".aux";`, `const std::string kExt = ".aux";`) is the literal it names
+                init = [c for c in children(d)]
+                lit = init[-1] if init else None
+                while lit is not None and lit.get("kind") in ("ImplicitCastExpr", "ExprWithCleanups", "MaterializeTemporaryExpr", "CXXConstructExpr",
+                                                              "CXXBindTemporaryExpr", "CXXFunctionalCastExpr", "ParenExpr") and len(children(lit)) == 1:
+                    lit = children(lit)[0]
+                if lit is not None and lit.get("kind") == "StringLiteral":
+                    return rec(lit)
             if dk == "VarDecl" and refs and "_p" in d:
                 # a count read once into a local (`const int n = nbCells();`) is the call it aliases (rules/common.hoisted_count)
                 h = d.get("_hoisted")
